@@ -4,3 +4,9 @@ claimed = {
    "Every dynamic Read on the SMF source and every escape of the source value is enumerated from the SSA/call graph of the current tree; each must be a stdlib fill-or-fail primitive or a checked one-byte read, and the accompanying error may only matter under a short count. Given the io contracts this implies independence from fragmentation for all inputs and all partitions.",
    "trusted: io.ReadFull/ReadAtLeast/CopyN contracts, go/ssa, VTA call graph, field-based may-flow; domain: readers returning >=1 byte or an error per call", "DESIGN.md §4 C09"),
 }
+claimed["C07"] = ("proof", "abstract interpretation over go/ssa (interval x known-bits x bit provenance, trace partitioning) compared bit-for-bit with a MIDI 1.0 spec table",
+   "Each exported channel-voice / system-common constructor is interpreted abstractly with fully symbolic arguments; every trace partition's output bytes must equal the MIDI 1.0 layout of the clamped arguments bit for bit, the matching accessor interpreted on that abstract result must return the clamped arguments, and every other type-specific accessor must reject. One abstract run covers all argument tuples (in and out of range).",
+   "trusted: go/ssa translation, E-abs transfer functions and stdlib summaries, the spec table in props_c07.go; loopback clause (C07.5) is decided under C04", "DESIGN.md §4 C07")
+PENDING_C10 = ("proof", "all-paths error-flow analysis on SSA (discard / swallow / latch rules) + value-flow of the destination writer",
+   "Every fallible call reachable from WriteTo / ReadFrom is an obligation: its error is propagated, or tested with every return reachable from the non-nil edge definitely non-nil, or latched and the latch tested by every caller; discards only into in-memory buffers. Size accounting: the destination flows only into the counting wrapper. Induction up the call graph gives: a failing Write/Read makes the entry point return non-nil.",
+   "trusted: io.Writer/io.Reader contracts, bytes.Buffer never fails, fmt.Errorf/errors.New non-nil, VTA call graph; partial-count exactness under short writes is the io.Writer contract", "DESIGN.md §4 C10")
